@@ -2,6 +2,7 @@ package main
 
 import (
 	"fmt"
+	"go/token"
 	"math/big"
 	"regexp"
 	"sort"
@@ -70,8 +71,10 @@ type Ctx struct {
 	steps             int
 	depth             int
 	stepMax, depthMax int
-	curPos            string
-	stack             []string
+	curTok            token.Pos
+	posOverride       string
+	stack             []*ssa.Function
+	fnInfos           map[*ssa.Function]*fnInfo
 
 	intrinsics map[string]func(c *Ctx, args []Value) Value
 	stats      pathStats
@@ -102,11 +105,7 @@ type pathStats struct {
 }
 
 func (c *Ctx) errf(f string, a ...interface{}) {
-	st := c.stack
-	if len(st) > 12 {
-		st = st[len(st)-12:]
-	}
-	panic(engineErr{fmt.Sprintf(f, a...) + " at " + c.curPos + "\n  stack: " + strings.Join(st, "\n         ")})
+	panic(engineErr{fmt.Sprintf(f, a...) + " at " + c.cp() + "\n  stack: " + strings.Join(c.stackNames(12), "\n         ")})
 }
 
 func (c *Ctx) addPC(t *Term) {
@@ -118,7 +117,7 @@ func (c *Ctx) addPC(t *Term) {
 }
 
 func (c *Ctx) inconclusive(why string) {
-	c.incomplete = append(c.incomplete, why+" at "+c.curPos)
+	c.incomplete = append(c.incomplete, why+" at "+c.cp())
 	panic(abortPath{"inconclusive: " + why})
 }
 
@@ -311,7 +310,7 @@ func (c *Ctx) reportViolation(kind, label string, bad *Term) {
 	rest := bad
 	for _, k := range c.kf {
 		ent := c.ex.kfOpen[k.id]
-		if ent == nil || !ent.matches(kind, label, c.curPos) {
+		if ent == nil || !ent.matches(kind, label, c.cp()) {
 			continue
 		}
 		if c.feasibleQuiet(And(bad, k.cond)) {
@@ -343,18 +342,14 @@ func (c *Ctx) feasibleQuiet(t *Term) bool {
 	if r == "unsat" {
 		return false
 	}
-	c.incomplete = append(c.incomplete, "solver "+r+" while classifying a violation at "+c.curPos)
+	c.incomplete = append(c.incomplete, "solver "+r+" while classifying a violation at "+c.cp())
 	return false
 }
 
 func (c *Ctx) recordViolation(kind, label string, bad *Term, known string) {
-	v := &Violation{Kind: kind, Label: label, Pos: c.curPos, Harness: c.harness, Known: known}
+	v := &Violation{Kind: kind, Label: label, Pos: c.cp(), Harness: c.harness, Known: known}
 	v.Prefix = append([]int{}, c.decis...)
-	st := c.stack
-	if len(st) > 8 {
-		st = st[len(st)-8:]
-	}
-	v.Stack = strings.Join(st, " <- ")
+	v.Stack = strings.Join(c.stackNames(8), " <- ")
 	// dedupe cheaply within the explorer before paying for a model
 	if !c.ex.wantModel(v) {
 		c.viols = append(c.viols, v)
@@ -371,7 +366,7 @@ func (c *Ctx) recordViolation(kind, label string, bad *Term, known string) {
 			v.Vector = append(v.Vector, NdVal{Name: n.Name, Kind: n.Kind, Value: ndValueString(n, vals[i])})
 		}
 	} else if r != "unsat" {
-		c.incomplete = append(c.incomplete, "solver "+r+" while extracting a model at "+c.curPos)
+		c.incomplete = append(c.incomplete, "solver "+r+" while extracting a model at "+c.cp())
 	}
 	c.solver.Done()
 	c.viols = append(c.viols, v)
@@ -446,4 +441,27 @@ func sortedKeys(m map[string]int) []string {
 	}
 	sort.Strings(ks)
 	return ks
+}
+
+// cp renders the current source position (lazily: this is off the hot path).
+func (c *Ctx) cp() string {
+	if c.posOverride != "" {
+		return c.posOverride
+	}
+	if c.curTok == token.NoPos {
+		return "-"
+	}
+	return c.prog.Fset.Position(c.curTok).String()
+}
+
+func (c *Ctx) stackNames(n int) []string {
+	st := c.stack
+	if len(st) > n {
+		st = st[len(st)-n:]
+	}
+	out := make([]string, len(st))
+	for i, f := range st {
+		out[i] = f.String()
+	}
+	return out
 }
